@@ -32,6 +32,8 @@ MUTANTS = [
     {'name': 'bivariate-json-load-pickle-save', 'rule': 'D6.format', 'file': B, 'old': "        with open(filename, 'w') as f:\n            json.dump(content, f)", 'new': "        import pickle\n        with open(filename, 'wb') as f:\n            pickle.dump(content, f)"},
     {'name': 'lambda-stored-in-model', 'rule': 'D9.pickle', 'file': V, 'old': "        self.model = GaussianKDE\n", 'new': "        self.model = lambda: GaussianKDE()\n"},
     {'name': 'multivariate-dispatch-ignores-type', 'rule': 'D5.dispatch', 'file': 'multivariate/base.py', 'old': "        multivariate_class = get_instance(params['type'])\n        return multivariate_class.from_dict(params)", 'new': "        from copulas.multivariate.gaussian import GaussianMultivariate\n        return GaussianMultivariate.from_dict(params)"},
+    {'name': 'gaussian-rebuilt-stays-unfitted', 'rule': 'D4.complete', 'file': G, 'old': "        instance.fitted = True\n\n        return instance", 'new': "        return instance"},
+    {'name': 'vine-rebuilt-marked-unfitted', 'rule': 'D4.complete', 'file': V, 'old': "            instance.fitted = fitted\n", 'new': "            instance.fitted = False\n"},
 ]
 REWRITES = [
     {'name': 'vine-reorder-restores', 'file': V,
